@@ -274,18 +274,15 @@ impl DbValue {
                 }
             }
             I64_META_VALUE => {
-                let mut bytes = [0_u8; 8];
-                bytes.copy_from_slice(value_index.value());
+                let bytes = Self::scalar_bytes(&value_index)?;
                 DbValue::I64(i64::from_le_bytes(bytes))
             }
             U64_META_VALUE => {
-                let mut bytes = [0_u8; 8];
-                bytes.copy_from_slice(value_index.value());
+                let bytes = Self::scalar_bytes(&value_index)?;
                 DbValue::U64(u64::from_le_bytes(bytes))
             }
             F64_META_VALUE => {
-                let mut bytes = [0_u8; 8];
-                bytes.copy_from_slice(value_index.value());
+                let bytes = Self::scalar_bytes(&value_index)?;
                 DbValue::F64(DbF64::from(f64::from_le_bytes(bytes)))
             }
             STRING_META_VALUE => {
@@ -308,6 +305,18 @@ impl DbValue {
                 DbValue::VecString(storage.value::<Vec<String>>(StorageIndex(value_index.index()))?)
             }
             _ => panic!(),
+        })
+    }
+
+    fn scalar_bytes(value_index: &DbValueIndex) -> Result<[u8; 8], DbError> {
+        value_index.value().try_into().map_err(|_| {
+            DbError::db(
+                DbErrorType::TypeError,
+                format!(
+                    "Invalid size '{}' of a numeric value",
+                    value_index.value().len()
+                ),
+            )
         })
     }
 
